@@ -2497,9 +2497,16 @@ namespace bloch::compiler {
     }
 
     void SemanticAnalyser::visit(ArrayLiteralExpression& node) {
-        for (auto& el : node.elements)
-            if (el)
-                el->accept(*this);
+        for (auto& el : node.elements) {
+            if (!el)
+                continue;
+            // Array elements are primitives; null is only valid for class references.
+            if (dynamic_cast<NullLiteralExpression*>(el.get())) {
+                throw BlochError(ErrorCategory::Semantic, node.line, node.column,
+                                 "null is not a valid array element");
+            }
+            el->accept(*this);
+        }
     }
 
     void SemanticAnalyser::visit(ParenthesizedExpression& node) {
